@@ -164,6 +164,11 @@ pub struct FReplay {
     pub original_ops: usize,
     pub minimised_ops: usize,
     pub plan: FPlan,
+    /// Life cycles executed before `plan` in the same child process (only for violations that
+    /// depend on the state of the system allocator's heap: `plain-allocator/...` clauses whose
+    /// life cycle does not reproduce alone).
+    #[serde(default)]
+    pub prefix_plans: Vec<FPlan>,
 }
 
 const NC: usize = 3;
